@@ -213,7 +213,8 @@ Inductive ser_err :=
 | ErrBatchStatement (idx : N) (e : stmt_err)
 | ErrBadBatch (announced serialized : N)
 | ErrStartup | ErrRegister | ErrAuthResponse
-| ErrSnap.
+| ErrSnap
+| ErrBodyTooLong (n : N).           (* CqlRequestSerializationError::BodyTooLong *)
 
 (* SerializedValues::from_closure(|w| for each cell: w.make_cell_writer().set_*()) : the closure
    runs first (cell overflow), then `writer.value_count().try_into::<u16>()`. *)
@@ -385,10 +386,13 @@ Definition codec_ok (cd : codec) : Prop :=
   (forall b, lz4_decompress cd (lz4_compress cd b) (blen b) = Some b) /\
   (forall b c, snap_compress cd b = Some c -> snap_decompress cd c = Some b).
 
-(* compress_append: `uncomp_body.len() as u32` wraps modulo 2^32 *)
+(* compress_append: LZ4 writes `u32::try_from(uncomp_body.len())` (BodyTooLong otherwise) before
+   the block; Snappy writes the raw block *)
 Definition compress_append (cd : codec) (alg : comp_alg) (body : bytes) : result ser_err bytes :=
   match alg with
-  | Lz4 => Ok (be 4 (blen body mod 4294967296) ++ lz4_compress cd body)
+  | Lz4 => if blen body <? 4294967296
+           then Ok (be 4 (blen body) ++ lz4_compress cd body)
+           else Err (ErrBodyTooLong (blen body))
   | Snappy => match snap_compress cd body with Some c => Ok c | None => Err ErrSnap end
   end.
 
@@ -404,9 +408,13 @@ Definition decompress (cd : codec) (alg : comp_alg) (b : bytes) : option bytes :
 
 (* header written by SerializedRequest::make around the payload:
    data[0]=4, data[1]=flags, data[2..4]=0 (stream, set later), data[4]=opcode,
-   data[5..9] = ((data.len() - HEADER_SIZE) as u32).to_be_bytes()   -- wraps modulo 2^32 *)
-Definition make_frame (flags op : N) (payload : bytes) : bytes :=
-  [4; flags; 0; 0; op] ++ be 4 (blen payload mod 4294967296) ++ payload.
+   body_size = data.len() - HEADER_SIZE;  data[5..9] = u32::try_from(body_size)?.to_be_bytes(),
+   BodyTooLong(body_size) when the size does not fit *)
+Definition frame_bytes (flags op : N) (payload : bytes) : bytes :=
+  [4; flags; 0; 0; op] ++ be 4 (blen payload) ++ payload.
+Definition make_frame (flags op : N) (payload : bytes) : result ser_err bytes :=
+  if blen payload <? 4294967296 then Ok (frame_bytes flags op payload)
+  else Err (ErrBodyTooLong (blen payload)).
 
 Definition frame_flags (compressed tracing : bool) : N :=
   let flags := 0 in
@@ -424,9 +432,9 @@ Definition encode_request (cd : codec) (c : option comp_alg) (tracing : bool) (r
       | Some alg =>
           match compress_append cd alg body with
           | Err e => Err e
-          | Ok payload => Ok (make_frame (frame_flags true tracing) (opcode r) payload)
+          | Ok payload => make_frame (frame_flags true tracing) (opcode r) payload
           end
-      | None => Ok (make_frame (frame_flags false tracing) (opcode r) body)
+      | None => make_frame (frame_flags false tracing) (opcode r) body
       end
   end.
 
@@ -676,13 +684,17 @@ Definition batch_counts_match (r : request) : bool :=
   | _ => true
   end.
 
-(* ---- the 4 GiB case (finding: `as u32` in SerializedRequest::make) --------------------------- *)
-(* Body size of a BATCH of n unprepared statements of t bytes each, empty value lists, no serial
-   consistency / timestamp (Request_proofs.len32_batch), the length field the code writes for a
-   body of that size, and the class of inputs on which field <> size. *)
+(* the serialised body does not fit the frame's 32-bit length field *)
+Definition body_too_long (r : request) : bool :=
+  match serialize_request r with Ok b => 4294967296 <=? blen b | Err _ => false end.
+
+(* ---- sizes of a uniform batch (the tie's `L` cases, bodies around 4 GiB) ---------------------- *)
+(* Body size of an uncompressed BATCH of n identical unprepared statements of t bytes each with
+   empty value lists, no serial consistency / timestamp, and what make returns for it as far as
+   sizes go: Ok body-size, or Err body-size = BodyTooLong (Request_proofs.uniform_batch). *)
 Definition batch_body_len (n t : N) : N := 1 + 2 + n * (1 + 4 + t + 2) + 2 + 1.
-Definition header_len_field (body_len : N) : N := body_len mod 4294967296.
-Definition len32_class (body_len : N) : bool := 4294967296 <=? body_len.
+Definition uniform_batch_outcome (n t : N) : result N N :=
+  let b := batch_body_len n t in if b <? 4294967296 then Ok b else Err b.
 
 (* For EXECUTE the parser must be told whether the metadata-id extension is in use. *)
 Definition mid_matches (mid : bool) (r : request) : Prop :=
